@@ -195,6 +195,7 @@ class Frame:
         self.mod = mod; self.fname = fname; self.vars = {}
         self.cls = None; self.self_obj = None
         self.parent = parent          # defining frame of a nested function / lambda: free names are looked up there when the body runs (late binding)
+        self.globals_declared = set()   # names a `global` statement of this function mentions: stores go to the module state
 
     def lookup(self, n):
         f = self
@@ -213,6 +214,7 @@ class Interp:
         self.depth = 0
         self.trace_calls = []
         self.module_const_cache = {}
+        self.module_state = {}         # (module name, variable) -> value written through a `global` statement: persists across calls made with this interpreter
 
     # ------------------------------------------------------------ entry points
     def call(self, mod, fnode, args=(), kwargs=None, self_obj=None, owner=None, closure=None):
@@ -384,7 +386,9 @@ class Interp:
                     if isinstance(v, Obj) and callable(v.attrs.get('__exit__')):
                         v.attrs['__exit__']()
             return
-        if isinstance(st, (ast.Import, ast.ImportFrom, ast.Global, ast.Nonlocal)):
+        if isinstance(st, ast.Global):
+            fr.globals_declared |= set(st.names); return
+        if isinstance(st, (ast.Import, ast.ImportFrom, ast.Nonlocal)):
             return
         if isinstance(st, ast.FunctionDef):
             fr.vars[st.name] = FuncRef(fr.mod, st, closure=fr); return
@@ -433,6 +437,8 @@ class Interp:
                 r = h(self, st, v, fr)
                 if r is not None:
                     return r
+            if v.op == 'cmp' and v.args[0] is v.args[1]:
+                return {'>': False, '>=': True, '<': False, '<=': True, '==': True, '!=': False}[v.val]      # a value compared with itself
             if v.op == 'cmp':
                 # sign domain: positive atoms against constants (argument-validation guards)
                 from .regions import sign_of, POS, NEG, ZERO, NONNEG, NONPOS
@@ -461,6 +467,9 @@ class Interp:
 
     def assign(self, t, v, fr, st):
         if isinstance(t, ast.Name):
+            if t.id in fr.globals_declared:
+                self.module_state[(fr.mod.name, t.id)] = v
+                return
             cur = fr.vars.get(t.id)
             if isinstance(cur, Ref):
                 cur.frame.vars[cur.name] = v
@@ -580,6 +589,8 @@ class Interp:
     def global_name(self, mod, n, e=None):
         if n in ('True', 'False', 'None'):
             return {'True': True, 'False': False, 'None': None}[n]
+        if (mod.name, n) in self.module_state:
+            return self.module_state[(mod.name, n)]
         h = self.hooks.get('global')
         if h is not None:
             r = h(self, mod, n)
